@@ -100,8 +100,11 @@ pub fn gen_c05(rng: &mut Rng, n: usize, out: &mut Vec<String>) {
         // comments are part of the shared token list (so both versions carry the same ones)
         let with_comments = rng.chance(1, 3);
         let mut base: Vec<gen_prog::Tok> = Vec::new();
+        // often the declaration BEHIND the damaged one is documented: its comments must stay its own
+        let doc_next = with_comments && rng.chance(1, 2);
         for (i, t) in prog.toks.iter().enumerate() {
-            if with_comments && gen_prog::LEADING_GAPS.contains(&t.gap) && rng.chance(1, 4) {
+            let first_of_next = doc_next && t.decl == k + 1 && (i == 0 || prog.toks[i - 1].decl == k);
+            if with_comments && gen_prog::LEADING_GAPS.contains(&t.gap) && (rng.chance(1, 4) || first_of_next) {
                 let mut c = t.clone();
                 c.text = format!("// c{}\n", i);
                 c.gap = "comment";
@@ -110,7 +113,13 @@ pub fn gen_c05(rng: &mut Rng, n: usize, out: &mut Vec<String>) {
             base.push(t.clone());
         }
         let idxs: Vec<usize> = (0..base.len()).filter(|&i| base[i].decl == k && base[i].gap != "comment").collect();
-        let j = *rng.pick(&idxs);
+        // the tokens that delimit the declaration are damaged more often than their share: its last token
+        // (closing brace / semicolon) and its header
+        let j = match rng.below(8) {
+            0 | 1 => *idxs.last().unwrap(),
+            2 => idxs[rng.below(idxs.len().min(5))],
+            _ => *rng.pick(&idxs),
+        };
         let mut damaged = base.clone();
         let what = rng.below(3);
         let is_kw = |t: &str| t == "proc" || t == "type";
